@@ -35,8 +35,28 @@ def shape_cases(seed, tier):
                 yield {"net": name, "bnet": bnet, "config": {"max_motifs_per_node": lim}, "history": h, "finish": "bfs"}
 
 
+def percolated_input_cases(seed, tier):
+    """shape added after the seeded-change review: no input at the root, but fixing a stable motif (one state of a bistable pair) turns other variables into
+    inputs of the percolated network of a NON-root node; block expansion with optimize_source_nodes=False (a plain expansion procedure: every expanded
+    node has exactly its successors of the full diagram) with / without the motif-avoidance check, size limits and earlier partial expansions; a
+    quarter of the cases with optimize_source_nodes=True (source shortcuts allowed: every successor is a percolated trap space strictly inside its
+    parent and every minimal trap space stays reachable).  Networks: families.percolated_input_nets and families.emergent_source_nets."""
+    nets = [x for pair in zip(families.percolated_input_nets(seed, tier), families.emergent_source_nets(seed, tier)) for x in pair]
+    nets = nets[:1] + [n for n in nets[1:] if len(families.variables(n[1])) <= 6]  # (cost: the full diagrams of the larger ones have > 50 nodes)
+    for k, (name, bnet) in enumerate(nets):
+        rng = random.Random(f"{seed}-{name}-c04-percin")
+        for rnd in range(3):
+            first = k == 0 and rnd == 0
+            opt = (not first) and rnd == 2 and rng.random() < 0.75
+            block = ["block", False if first else rng.random() < 0.5, None if first or rng.random() < 0.7 else rng.randint(6, 20), opt, False]
+            # block expansion starts at the root and does nothing below a root that is already expanded: earlier calls are rare and mostly queries
+            pre = [] if first or rng.random() < 0.8 else rng.choice([[["seeds", 0, False]], [["cands", 0, True, True]], [["succ", 0]], [["bfs", None, 0, None]], [["pickle"]]])
+            post = [] if rng.random() < 0.6 else [rng.choice([["block", rng.random() < 0.5, None, opt, False], ["succ", rng.randint(0, 8)], ["bfs", None, 1, None]])]
+            yield {"net": name, "bnet": bnet, "history": pre + [block] + post, "finish": "bfs" if first else rng.choice(["bfs", "dfs", None, None]), "plain": not opt}
+
+
 def cases(seed, tier):
-    yield from families.interleave((shape_cases(seed, tier), 1), (general_cases(seed, tier), 4))
+    yield from families.interleave((percolated_input_cases(seed, tier), 1), (shape_cases(seed, tier), 1), (general_cases(seed, tier), 5))
 
 
 def general_cases(seed, tier):
@@ -63,24 +83,31 @@ def check_with_info(case):
     info = net_info(net)
     info["ref_nodes"] = len(net.full_sd()[1])
     info["partial_moments"] = 0
+    plain = case.get("plain", True)  # False: the history uses source-node shortcuts (optimize_source_nodes=True)
     sd = make_sd(case["bnet"], case.get("config"))
-    out = check_structure(sd, net, plain=True)
+    out = check_structure(sd, net, plain=plain)
     for k, step in enumerate(case["history"]):
         sd, r = run_step(sd, step)
         if list(sd.stub_ids()):
             info["partial_moments"] += 1
-        for f in check_structure(sd, net, plain=True):
+        for f in check_structure(sd, net, plain=plain):
             f["detail"] = f"after step {k} {step}: " + f["detail"]
             out.append(f)
         if out:
             return out, info
+    if case["finish"] is None:  # (shape cases only) no final full expansion
+        return out, info
     if case.get("config"):
         sd.config["max_motifs_per_node"] = 100_000  # the limit is lifted for the final full expansion
     fin = ["bfs", None, None, None] if case["finish"] == "bfs" else ["dfs", None, None, None]
     sd, r = run_step(sd, fin)
     if r is not True:
         out.append(fail("full_expansion_incomplete", "an unrestricted full expansion completes", observed=r, expected=True))
-    out += check_structure(sd, net, plain=True)
+    out += check_structure(sd, net, plain=plain)
+    if not plain:
+        if list(sd.stub_ids()):
+            out.append(fail("stub_after_full_expansion", "after full expansion every node is expanded", observed=list(sd.stub_ids())))
+        return out, info
     fresh = make_sd(case["bnet"])
     fresh.expand_bfs()
     if signature(sd) != signature(fresh):
